@@ -409,6 +409,9 @@ def _quantifier_loop(self: Folder, s: ast.stmt, rest: list[ast.stmt], env: dict[
         return None
     after = _bool_const(rest[0].value)
     *binds, last = s.body
+    if isinstance(last, ast.If) and not last.orelse and len(last.body) == 1 and isinstance(last.body[0], ast.Return) \
+            and last.body[0].value is not None and (after is None or _bool_const(last.body[0].value) is None):
+        return _search_loop(self, s, rest, env, fi, nested, depth)
     if after is None or not isinstance(last, ast.If) or last.orelse or len(last.body) != 1 or not isinstance(last.body[0], ast.Return) \
             or _bool_const(last.body[0].value) is not (not after):
         return None
@@ -429,6 +432,37 @@ def _quantifier_loop(self: Folder, s: ast.stmt, rest: list[ast.stmt], env: dict[
     call = ast.Call(func=ast.Name(id="all" if after else "any", ctx=ast.Load()), args=[comp], keywords=[])
     inner_env = {k: v for k, v in env.items() if k not in names}
     return self.expr(ast.fix_missing_locations(ast.copy_location(call, s)), inner_env, fi, nested, depth)
+
+
+def _search_loop(self: Folder, s: ast.For, rest: list[ast.stmt], env: dict[str, ast.AST], fi: FuncInfo,
+                 nested: dict[str, FuncNode], depth: int) -> Any:
+    """`for x in S: if C(x): return K` (K the same whichever x is found) followed by `rest`  ==
+    `K if any(C(x) for x in S) else <value of rest>`; None if `s` is not of that shape."""
+    *binds, last = s.body
+    local: dict[str, ast.AST] = {}
+    for b in binds:
+        if isinstance(b, ast.Expr) and isinstance(b.value, ast.Constant):
+            continue
+        if not (isinstance(b, ast.Assign) and len(b.targets) == 1 and isinstance(b.targets[0], ast.Name)):
+            return None
+        local[b.targets[0].id] = subst(b.value, local)
+    names = _target_names(s.target)
+    found = last.body[0].value  # type: ignore[attr-defined]
+    if any(isinstance(n, ast.Name) and (n.id in names or n.id in local) for n in ast.walk(found)):
+        return None  # the result depends on which element was found: not a quantifier
+    ren = {n: f"{n}#{next(_fresh)}" for n in sorted(names)}
+    cond = rename(subst(last.test, local), ren)  # type: ignore[attr-defined]
+    comp = ast.GeneratorExp(elt=cond, generators=[ast.comprehension(target=rename(s.target, ren), iter=s.iter, ifs=[], is_async=0)])
+    call = ast.Call(func=ast.Name(id="any", ctx=ast.Load()), args=[comp], keywords=[])
+    inner_env = {k: v for k, v in env.items() if k not in names}
+    test = self.expr(ast.fix_missing_locations(ast.copy_location(call, s)), inner_env, fi, nested, depth)
+    hit = self.expr(found, inner_env, fi, nested, depth)
+    env_rest = {k: v for k, v in env.items() if k not in names and k not in local}
+    miss = self._block(rest, env_rest, fi, nested, depth)
+    if miss is RAISE:
+        return ast.IfExp(test=test, body=hit, orelse=ast.Name(id="RAISE", ctx=ast.Load())) if self.mark_raise else hit
+    miss = ast.Constant(None) if miss is None else miss
+    return hit if ast.dump(hit) == ast.dump(miss) else ast.IfExp(test=test, body=hit, orelse=miss)
 
 
 Folder._quantifier_loop = _quantifier_loop  # type: ignore[attr-defined]
@@ -1078,19 +1112,267 @@ class DupFree:
         return None
 
 
-def simplify_under(expr: ast.AST, known: set[Any]) -> ast.AST:
+def simplify_under(expr: ast.AST, known: set[Any], also: Callable[[Any], bool] | None = None) -> ast.AST:
     """Resolve the conditional expressions in `expr` whose test (or its negation) follows from the canonical
-    facts `known` (on a copy)."""
+    facts `known` (or accepted by `also`) (on a copy)."""
+    def holds(fs: set[Any]) -> bool:
+        return all(f in known or (also is not None and also(f)) for f in fs)
+
     class S(ast.NodeTransformer):
         def visit_IfExp(self, node: ast.IfExp) -> ast.AST:  # noqa: N802
             self.generic_visit(node)
-            if facts(bcanon(node.test)) <= known:
+            if holds(facts(bcanon(node.test))):
                 return node.body
-            if facts(bcanon(node.test, True)) <= known:
+            if holds(facts(bcanon(node.test, True))):
                 return node.orelse
             return node
 
     return S().visit(copy.deepcopy(expr))
+
+
+# ------------------------------------------------------------------ block helpers that define a closure
+def splice_closure_helpers(prog: Program, fn: FuncInfo, exclude: Iterable[str] = ()) -> FuncNode | None:
+    """`x = self._h(a, ..)` / `return self._h(..)` / `self._h(..)` where the private, not overridden method `_h` is a
+    straight block (no return of its own but one trailing `return E`) that *defines nested functions* (a named
+    predicate handed to a graph search, ...): the block is executed in line, like engine.normalize.inline_helpers does
+    for blocks without nested definitions (there a nested function's `return` counts as the helper's own).  The
+    helper's locals and nested function names get a suffix; parameters are replaced by the arguments, which must
+    be plain names / attribute chains / constants (so nothing is re-evaluated or reordered).  Returns the rewritten
+    copy of `fn.node`, or None if there is nothing of that kind."""
+    if fn.cls is None:
+        return None
+    excl = set(exclude) | set(ANCHOR_NAMES)
+    root = copy.deepcopy(fn.node)
+    changed = False
+
+    def own_nodes(stmts: list[ast.stmt]) -> Iterable[ast.AST]:
+        for st in stmts:
+            if isinstance(st, _FuncTypes + (ast.ClassDef,)):
+                continue
+            yield from walk_no_nested(st)
+
+    def target(call: ast.Call) -> FuncNode | None:
+        f = call.func
+        if not (isinstance(f, ast.Attribute) and isinstance(f.value, ast.Name) and f.value.id in ("self", "cls")
+                and f.attr.startswith("_") and not f.attr.startswith("__") and f.attr not in excl):
+            return None
+        m = prog.resolve_method(fn.cls, f.attr)
+        if m is None or m.cls is None or m.node is fn.node or any(f.attr in sub.methods for sub in prog.subclasses(fn.cls)):
+            return None
+        h = m.node
+        body = h.body[1:] if h.body and isinstance(h.body[0], ast.Expr) and isinstance(h.body[0].value, ast.Constant) else h.body
+        if isinstance(h, ast.AsyncFunctionDef) or h.decorator_list or not body or len(body) > 25 \
+                or not any(isinstance(st, _FuncTypes) for st in body) or h.args.vararg or h.args.kwarg:
+            return None
+        rets = [n for n in own_nodes(body) if isinstance(n, ast.Return)]
+        if len(rets) > 1 or (rets and rets[0] is not body[-1]) or any(isinstance(n, (ast.Yield, ast.YieldFrom, ast.Await, ast.Global, ast.Nonlocal))
+                                                                       for st in body for n in ast.walk(st)):
+            return None
+        return h
+
+    def rename_scoped(node: ast.AST, ren: dict[str, str]) -> None:
+        """Rename the helper-level names in `node`, not entering nested scopes that bind the same name."""
+        if isinstance(node, _FuncTypes + (ast.Lambda,)):
+            a = node.args
+            bound = {x.arg for x in a.posonlyargs + a.args + a.kwonlyargs} | ({a.vararg.arg} if a.vararg else set()) | ({a.kwarg.arg} if a.kwarg else set())
+            if isinstance(node, _FuncTypes):
+                bound |= {n.id for st in node.body for n in walk_no_nested(st) if isinstance(n, ast.Name) and isinstance(n.ctx, ast.Store)}
+                if node.name in ren:
+                    node.name = ren[node.name]
+            for d in list(a.defaults) + [k for k in a.kw_defaults if k is not None]:
+                rename_scoped(d, ren)
+            inner = {k: v for k, v in ren.items() if k not in bound}
+            for child in (node.body if isinstance(node.body, list) else [node.body]):
+                rename_scoped(child, inner)
+            return
+        if isinstance(node, ast.Name) and node.id in ren:
+            node.id = ren[node.id]
+        for child in ast.iter_child_nodes(node):
+            rename_scoped(child, ren)
+
+    def subst_scoped(node: ast.AST, mapping: dict[str, ast.AST]) -> ast.AST:
+        class Sub(ast.NodeTransformer):
+            def __init__(self, m: dict[str, ast.AST]) -> None:
+                self.m = m
+
+            def visit_Name(self, n: ast.Name) -> ast.AST:  # noqa: N802
+                if isinstance(n.ctx, ast.Load) and n.id in self.m:
+                    return ast.copy_location(copy.deepcopy(self.m[n.id]), n)
+                return n
+
+            def _scope(self, n: Any) -> ast.AST:
+                a = n.args
+                bound = {x.arg for x in a.posonlyargs + a.args + a.kwonlyargs}
+                inner = Sub({k: v for k, v in self.m.items() if k not in bound})
+                if isinstance(n.body, list):
+                    n.body = [inner.visit(st) for st in n.body]
+                else:
+                    n.body = inner.visit(n.body)
+                return n
+
+            visit_FunctionDef = visit_AsyncFunctionDef = visit_Lambda = _scope  # noqa: N815
+
+        return Sub(mapping).visit(node)
+
+    for _round in range(2):
+        again = False
+        for suite in [b for n in ast.walk(root) for fld in ("body", "orelse", "finalbody")
+                      for b in [getattr(n, fld, None)] if isinstance(b, list) and b and isinstance(b[0], ast.stmt)]:
+            i = 0
+            while i < len(suite):
+                st = suite[i]
+                i += 1
+                if not (isinstance(st, (ast.Expr, ast.Assign, ast.AnnAssign, ast.Return)) and isinstance(getattr(st, "value", None), ast.Call)):
+                    continue
+                call = st.value  # type: ignore[union-attr]
+                h = target(call)
+                if h is None:
+                    continue
+                ps = _params_of(h)[1:]
+                binds = call_args(call, ps)
+                if binds is None or set(binds) != set(ps) or not all(
+                        dotted(v) is not None or isinstance(v, ast.Constant) for v in binds.values()):
+                    continue
+                hb = copy.deepcopy(h.body[1:] if isinstance(h.body[0], ast.Expr) and isinstance(h.body[0].value, ast.Constant) else h.body)
+                own = {n.id for n in own_nodes(hb) if isinstance(n, ast.Name) and isinstance(n.ctx, (ast.Store, ast.Del))} \
+                    | {x.name for x in hb if isinstance(x, _FuncTypes)}
+                if own & set(ps):
+                    continue  # the helper re-binds a parameter
+                ren = {n: f"{n}__{h.name.strip('_')}" for n in own}
+                for x in hb:
+                    rename_scoped(x, ren)
+                hb = [subst_scoped(x, dict(binds)) for x in hb]
+                tail = hb[-1] if isinstance(hb[-1], ast.Return) else None
+                stmts = hb[:-1] if tail is not None else hb
+                if not isinstance(st, ast.Expr):
+                    st2 = copy.copy(st)
+                    st2.value = tail.value if tail is not None and tail.value is not None else ast.Constant(None)  # type: ignore[union-attr]
+                    stmts = stmts + [st2]
+                for x in stmts:
+                    for n in ast.walk(x):
+                        if not hasattr(n, "lineno") and isinstance(n, (ast.stmt, ast.expr)):
+                            ast.copy_location(n, st)
+                suite[i - 1:i] = stmts or [ast.copy_location(ast.Pass(), st)]
+                i += len(stmts) - 1
+                changed = again = True
+        if not again:
+            break
+    if not changed:
+        return None
+    return ast.fix_missing_locations(root)
+
+
+# ------------------------------------------------------------------ "A is a subset of B" as a canonical fact
+_SET_COPIES = ("set", "frozenset", "sorted", "list", "tuple")
+_QVAR = "QVAR_"
+
+
+def _parse_text(text: Any) -> ast.AST | None:
+    if not isinstance(text, str):
+        return None
+    try:
+        # `?0`: the alpha-normalised quantifier variable; `s#7`: a freshened comprehension variable
+        return ast.parse(text.replace("?", _QVAR).replace("#", "_FRESH_"), mode="eval").body
+    except SyntaxError:
+        return None
+
+
+def _strip_copies(e: ast.AST) -> ast.AST:
+    """`set(x)`, `frozenset(x)`, `sorted(x)`, ... -> x: same elements."""
+    while isinstance(e, ast.Call) and isinstance(e.func, ast.Name) and e.func.id in _SET_COPIES and len(e.args) == 1 \
+            and not e.keywords and not isinstance(e.args[0], (ast.GeneratorExp, ast.Starred)):
+        e = e.args[0]
+    return e
+
+
+def _projection(e: ast.AST) -> tuple[ast.AST, str] | None:
+    """`{v.attr for v in X}` / `set(v.attr for v in X)` / `[v.attr for v in X]`  ->  (X, attr)."""
+    if isinstance(e, ast.Call) and isinstance(e.func, ast.Name) and e.func.id in _SET_COPIES and len(e.args) == 1 and not e.keywords \
+            and isinstance(e.args[0], (ast.GeneratorExp, ast.ListComp, ast.SetComp)):
+        e = e.args[0]
+    if isinstance(e, (ast.SetComp, ast.ListComp, ast.GeneratorExp)) and len(e.generators) == 1:
+        g = e.generators[0]
+        if isinstance(g.target, ast.Name) and not g.ifs and not g.is_async and isinstance(e.elt, ast.Attribute) \
+                and isinstance(e.elt.value, ast.Name) and e.elt.value.id == g.target.id:
+            return g.iter, e.elt.attr
+    return None
+
+
+def subset_fact(atom: Any, is_sub: Callable[[str], bool], is_super: Callable[[str], bool],
+                key_attrs: tuple[str, ...] = ("component_id",), expand: Callable[[ast.AST], ast.AST] | None = None) -> bool | None:
+    """True / False if the canonical atom says that the collection accepted by `is_sub` is / is not contained in the
+    one accepted by `is_super` (both given the text of an expression, copies such as `set(x)` peeled off); None if the
+    atom says nothing of that kind.  Spellings read: `A.issubset(B)`, `B.issuperset(A)`, `A <= B`, `B >= A`,
+    `all(a in B for a in A)`, `not any(a not in B for a in A)`, `not (A - B)`, `not A.difference(B)`,
+    `len(A - B) == 0`, `A & B == A`, `A | B == B`; and the same over both sides projected on an attribute that
+    identifies the element (`{a.component_id for a in A} <= {b.component_id for b in B}`,
+    `all(a.component_id in {b.component_id for b in B} for a in A)`).  `expand` resolves what the caller knows to be
+    a name for a collection built once and never changed (`ids = {c.component_id for c in B}`, `wanted = set(B)`)."""
+    def ex(e: ast.AST) -> ast.AST:
+        e = _strip_copies(e)
+        return _strip_copies(expand(e)) if expand is not None else e
+
+    def pair(a: ast.AST | None, b: ast.AST | None) -> bool:
+        if a is None or b is None:
+            return False
+        a, b = ex(a), ex(b)
+        if is_sub(txt(a)) and is_super(txt(b)):
+            return True
+        pa, pb = _projection(a), _projection(b)
+        return pa is not None and pb is not None and pa[1] == pb[1] and pa[1] in key_attrs \
+            and is_sub(txt(ex(pa[0]))) and is_super(txt(ex(pb[0])))
+
+    def difference(e: ast.AST | None) -> tuple[ast.AST, ast.AST] | None:
+        if isinstance(e, ast.BinOp) and isinstance(e.op, ast.Sub):
+            return e.left, e.right
+        if isinstance(e, ast.Call) and isinstance(e.func, ast.Attribute) and e.func.attr == "difference" and len(e.args) == 1 and not e.keywords:
+            return e.func.value, e.args[0]
+        return None
+
+    if not isinstance(atom, tuple) or not atom:
+        return None
+    if atom[0] == "not" and len(atom) == 2:
+        inner = subset_fact(atom[1], is_sub, is_super, key_attrs, expand)
+        return None if inner is None else not inner
+    if atom[0] in ("truthy", "nonempty") and len(atom) == 2:
+        e = _parse_text(atom[1])
+        if atom[0] == "truthy" and isinstance(e, ast.Call) and isinstance(e.func, ast.Attribute) and len(e.args) == 1 and not e.keywords:
+            if e.func.attr == "issubset" and pair(e.func.value, e.args[0]):
+                return True
+            if e.func.attr == "issuperset" and pair(e.args[0], e.func.value):
+                return True
+        d = difference(e)
+        if d is not None and pair(d[0], d[1]):
+            return False  # something of A is left once B is taken away
+        return None
+    if atom[0] == "<=" and len(atom) == 3:
+        return True if pair(_parse_text(atom[1]), _parse_text(atom[2])) else None
+    if atom[0] in ("all", "any") and len(atom) == 3 and isinstance(atom[2], tuple) and len(atom[2]) == 3 \
+            and atom[2][0] == ("in" if atom[0] == "all" else "notin") and isinstance(atom[2][2], str):
+        member, coll, it = _parse_text(atom[2][1]), _parse_text(atom[2][2]), _parse_text(atom[1])
+        if it is None or coll is None or member is None:
+            return None
+        ok = False
+        if isinstance(member, ast.Name) and member.id.startswith(_QVAR):
+            ok = pair(it, coll)
+        elif isinstance(member, ast.Attribute) and isinstance(member.value, ast.Name) and member.value.id.startswith(_QVAR) \
+                and member.attr in key_attrs:
+            pb = _projection(ex(coll))
+            ok = pb is not None and pb[1] == member.attr and is_sub(txt(ex(it))) and is_super(txt(ex(pb[0])))
+        return (atom[0] == "all") if ok else None
+    if atom[0] in ("==", "!=") and len(atom) == 2 and isinstance(atom[1], frozenset) and len(atom[1]) == 2:
+        sides = [_parse_text(t) for t in atom[1]]
+        if any(s is None for s in sides):
+            return None
+        for op_side, plain in (sides, sides[::-1]):
+            if isinstance(op_side, ast.BinOp) and isinstance(op_side.op, (ast.BitAnd, ast.BitOr)):
+                for a, b in ((op_side.left, op_side.right), (op_side.right, op_side.left)):
+                    # A & B == A  /  A | B == B
+                    same = txt(plain) == txt(a if isinstance(op_side.op, ast.BitAnd) else b)
+                    if same and pair(a, b):
+                        return atom[0] == "=="
+        return None
+    return None
 
 
 # ------------------------------------------------------------------------------------------------
